@@ -1,7 +1,7 @@
 /* C09: one inductive step of the code-memory allocator from an arbitrary valid pre-state.
  * Real code: orc/orccodemem.c (included below, so static functions and globals are visible). */
 #include "verif.h"
-#include "../../../repo/orc/orccodemem.c"
+#include "orccodemem.c"
 
 #ifndef K
 #define K 5            /* max chunks per region in the pre-state */
